@@ -160,13 +160,13 @@ def gen_case(rng, big, directed=None):
         if case['in_kind'] == 'separated' and min(case['N']) < 2:
             case['in_kind'] = 'regular'
         r = rng.random()
-        if r < 0.3:
+        if r < 0.45:
             # explicit input grid (polar or Cartesian) with a per-point weights array
             case['in_kind'] = 'explicit'
             case['in_spec'] = gen_spec(rng, ndim, sc, 'in')
             case['N'] = list(case['in_spec']['dims'])
             case['field'] = gen_field(rng, case['N'])
-        if r < 0.5 and (r >= 0.3 or rng.random() < 0.5):
+        if r < 0.75 and (r >= 0.45 or rng.random() < 0.5):
             case['out'] = gen_spec(rng, ndim, 1.0 / sc, 'out')
         if case['in_kind'] not in ('regular', 'explicit'):
             case['in_jitter'] = [[_dy(rng, -0.25, 0.25, 4) * case['delta'][d] for _ in range(case['N'][d])]
@@ -340,6 +340,24 @@ DIRECTED_SEQ = [
          in_kind='regular',
          out={'kind': 'separated', 'coords': [[-0.0004, -0.00015, -0.00005, 0.0, 0.0001, 0.00035], [-0.0003, -0.0001, 0.0, 0.00005, 0.00045]]},
          seq=_steps([('b', 'complex128', []), ('f', 'complex64', [])])),
+    # polar grids with r·dr·dθ weights (the transformation matrices must use the grid's own weights)
+    dict(family='grid', N=[4, 5], delta=[0.5, 1.0], zero=[0.5, 0.0], q=[1.0, 1.0], fov=[1.0, 1.0], shift=[0.0, 0.0], tensor=[], dtype='complex128',
+         field={'kind': 'random', 'seed': 31}, gseed=31, method=None, mft=[[True, True]], scale_exp=0, in_kind='explicit',
+         in_spec={'kind': 'explicit', 'system': 'polar', 'layout': 'regular', 'dims': [4, 5], 'delta': [0.5, 1.0], 'zero': [0.5, 0.0],
+                  'weights': [float(v) for v in np.outer(np.full(5, 1.0), (0.5 + 0.5 * np.arange(4)) * 0.5).ravel()]},
+         out={'kind': 'regular', 'N': [5, 4], 'delta': [0.5, 0.75], 'zero': [-1.0, -1.0]}, seq=_steps([('b', 'complex128', []), ('f', 'complex64', [2])])),
+    dict(family='grid', N=[5, 4], delta=[0.5, 0.5], zero=[-1.0, -0.75], q=[1.0, 1.0], fov=[1.0, 1.0], shift=[0.0, 0.0], tensor=[2], dtype='complex128',
+         field={'kind': 'random', 'seed': 32}, gseed=32, method=None, mft=[[True, True]], scale_exp=0, in_kind='regular',
+         out={'kind': 'explicit', 'system': 'polar', 'layout': 'separated', 'dims': [3, 4], 'coords': [[0.5, 1.25, 3.0], [0.0, 1.0, 2.5, 4.5]],
+              'weights': [float(v) for v in np.outer(np.gradient(np.array([0.0, 1.0, 2.5, 4.5])), np.array([0.5, 1.25, 3.0]) * np.gradient(np.array([0.5, 1.25, 3.0]))).ravel()]},
+         seq=_steps([('f', 'complex128', []), ('b', 'complex128', [])])),
+    dict(family='grid', N=[6, 1], delta=[1.0, 1.0], zero=[0.0, 0.0], q=[1.0, 1.0], fov=[1.0, 1.0], shift=[0.0, 0.0], tensor=[], dtype='complex128',
+         field={'kind': 'random', 'seed': 33}, gseed=33, method=None, mft=[[True, True]], scale_exp=0, in_kind='explicit',
+         in_spec={'kind': 'explicit', 'system': 'polar', 'layout': 'unstructured', 'dims': [6, 1],
+                  'coords': [[0.5, 1.0, 1.5, 2.0, 2.5, 0.25], [0.0, 1.0, 2.0, 3.0, 4.0, 5.0]], 'weights': [0.25, 0.5, 0.75, 1.0, 1.25, 0.125]},
+         out={'kind': 'explicit', 'system': 'polar', 'layout': 'regular', 'dims': [3, 3], 'delta': [0.75, 2.0], 'zero': [0.25, 0.5],
+              'weights': [float(v) for v in np.outer(np.full(3, 2.0), (0.25 + 0.75 * np.arange(3)) * 0.75).ravel()]},
+         seq=_steps([('f', 'complex64', []), ('b', 'complex128', [2])])),
 ]
 
 
